@@ -125,7 +125,7 @@ exact_long!(h13s_oct_n22, 8, 22, 24);
 // @domain ∀ d∈{0,1}^60
 // @claim result == the exact integer rounded once
 exact_long!(h13s_bin_n60, 2, 60, 62);
-// @harness h13s_hex_n32 tier=thorough props=C13,C02
+// @harness h13s_hex_n32 tier=quick props=C13,C02
 // @bounds exactly 32 hex digits (128 bits: the widest string without dropped digits)
 // @domain ∀ d∈{0..15}^32
 // @claim result == the exact 128-bit integer rounded once
